@@ -116,10 +116,20 @@ def build(run):
 
     def shapes():
         n = 0
-        for m in ({f: u}, {u: f}, {u: A}, {f: as_vector([g, g])}):
+        import ufl as _ufl
+        from ufv import elements as _E
+        t_ = corpus.terminals()
+        u3 = _ufl.Coefficient(_ufl.FunctionSpace(t_["msh"], _E.LagrangeElement(t_["msh"].ufl_cell(), 1, (3,))))
+        A23 = _ufl.Coefficient(_ufl.FunctionSpace(t_["msh"], _E.LagrangeElement(t_["msh"].ufl_cell(), 1, (2, 3))))
+        c2, c3 = _ufl.Constant(t_["msh"], (2,)), _ufl.Constant(t_["msh"], (3,))
+        # rank-changing AND equal-rank / different-dimension mappings; with expressions in which the result would even be well-formed
+        cases = [(f * u[0], {f: u}), (f * u[0], {u: f}), (f * u[0], {u: A}), (f * u[0], {f: as_vector([g, g])}),
+                 (u[0] * u[1], {u: u3}), (ufl.dot(u, u), {u: u3}), (ufl.grad(u), {u: u3}), (u("+")[1], {u: u3}), (A[0, 1], {A: A23}), (c2[0] + c2[1], {c2: c3}),
+                 (f * f, {u: u3}), (u[0], {u: as_vector([f, g, f])})]
+        for e_, m in cases:
             try:
-                replace(f * u[0], m)
-                return violated(f"replace accepted the shape-changing mapping {m}", reproduced=True, replay={"mapping": str(m)})
+                r_ = replace(e_, m)
+                return violated(f"replace accepted the shape-changing mapping {m} in {e_}: result {r_}", reproduced=True, replay={"mapping": str(m), "expr": str(e_)})
             except ValueError:
                 n += 1
         from ufl import derivative, dx
